@@ -1,4 +1,4 @@
-use std::collections::HashMap;
+use std::collections::BTreeMap;
 
 use rusty_parser::{BuiltInStyle, TypeQualifier};
 use rusty_variant::Variant;
@@ -12,7 +12,8 @@ use crate::names::traits::SingleNameTrait;
 /// but with different types e.g. `A$` and `A%`.
 #[derive(Default)]
 pub struct Compacts {
-    map: HashMap<TypeQualifier, VariableInfo>,
+    // ordered, so that whoever walks the variables of a name sees them in the same order on every run
+    map: BTreeMap<TypeQualifier, VariableInfo>,
 }
 
 impl SingleNameTrait for Compacts {
